@@ -415,3 +415,115 @@ pub fn gen_op(rng: &mut crate::rng::Rng, c: &TCfg, universe: u64, write_no: &mut
         },
     }
 }
+
+// ================================================================================================
+// Timed searches with the "slow tier" fault (E2 stall gate): a blocking-pool thread is parked at its first
+// acquisition of a lock of the chosen tier, the paused tokio clock is advanced past the tier's timeout, the engine
+// takes its timeout branch, and only then is the parked thread released. Dropping the runtime waits for the
+// blocking tasks, so the engine is quiescent again before the next step. No source hook is involved.
+
+#[derive(Clone, Copy, Debug, Default, PartialEq, Serialize, Deserialize)]
+pub struct Stall {
+    pub hot: bool,
+    pub cold: bool,
+}
+
+#[derive(Clone, Debug, Default)]
+pub struct Degradation {
+    pub hot_timeouts: u64,
+    pub cold_timeouts: u64,
+    pub breaker_rejections: u64,
+    pub worker_saturation: u64,
+    pub partial_results: u64,
+    pub queries_rejected: u64,
+    pub threads_stalled: u64,
+}
+
+impl Degradation {
+    pub fn any(&self) -> bool {
+        self.hot_timeouts + self.cold_timeouts + self.breaker_rejections + self.worker_saturation + self.partial_results + self.queries_rejected > 0
+    }
+    pub fn label(&self) -> String {
+        let mut v = Vec::new();
+        for (n, x) in [("hot_timeout", self.hot_timeouts), ("cold_timeout", self.cold_timeouts), ("breaker_open", self.breaker_rejections), ("worker_saturation", self.worker_saturation), ("load_shed", self.queries_rejected)] {
+            if x > 0 {
+                v.push(n);
+            }
+        }
+        if v.is_empty() {
+            if self.partial_results > 0 { "partial".to_string() } else { "none".to_string() }
+        } else {
+            v.join("+")
+        }
+    }
+}
+
+pub fn timed_runtime() -> tokio::runtime::Runtime {
+    tokio::runtime::Builder::new_current_thread().enable_time().start_paused(true).thread_name(plsim::stall::STALLABLE_PREFIX).build().expect("runtime")
+}
+
+pub type TimedResult = Result<(Vec<kyrodb_engine::SearchResult>, kyrodb_engine::SearchExecutionPath), String>;
+
+/// One timed search; `stall` names the tiers whose blocking search is held back until its timeout has fired.
+/// Must be called from a thread the scheduler does not control. The caller keeps the simulated clock frozen.
+pub fn timed_search(b: &Built, q: &[f32], k: usize, ef: Option<usize>, scope: u64, stall: Stall) -> (TimedResult, Degradation) {
+    let before = b.engine.stats();
+    let mut armed = false;
+    let notify = Arc::new(tokio::sync::Notify::new());
+    if stall.hot || stall.cold {
+        let mut locks = std::collections::BTreeSet::new();
+        let ((), hot_set) = plsim::stall::record(|| {
+            let _ = b.engine.hot_tier().knn_search_with_cancel(q, 1, None);
+        });
+        let ((), cold_set) = plsim::stall::record(|| {
+            let _ = b.engine.cold_tier().knn_search_with_ef_cancel(q, 1, None, None);
+        });
+        if stall.hot {
+            locks.extend(hot_set.difference(&cold_set).copied());
+        }
+        if stall.cold {
+            locks.extend(cold_set.difference(&hot_set).copied());
+        }
+        if !locks.is_empty() {
+            let n = Arc::clone(&notify);
+            plsim::stall::arm(locks, Some(Box::new(move || n.notify_one())));
+            armed = true;
+        }
+    }
+    let rt = timed_runtime();
+    let eng = Arc::clone(&b.engine);
+    let step_ms = b.cfg.hot_timeout_ms.unwrap_or(50).max(b.cfg.cold_timeout_ms.unwrap_or(1000)) + 1;
+    let qq = q.to_vec();
+    let n2 = Arc::clone(&notify);
+    let res = rt.block_on(async move {
+        let search = eng.knn_search_with_timeouts_with_ef_scoped(&qq, k, ef, scope);
+        tokio::pin!(search);
+        loop {
+            // auto-advance of the paused clock is inhibited while a blocking task runs, so the runtime really waits
+            // here: for the search, or for a blocking thread to park at the gate
+            tokio::select! {
+                biased;
+                r = &mut search => break r,
+                _ = n2.notified() => {
+                    tokio::time::advance(Duration::from_millis(step_ms)).await;
+                }
+            }
+        }
+    });
+    let stalled = if armed { plsim::stall::ever_stalled() } else { 0 };
+    if armed {
+        plsim::stall::release();
+    }
+    drop(rt); // waits for the blocking tasks: quiescent before the next step
+    let after = b.engine.stats();
+    let d = Degradation {
+        hot_timeouts: after.hot_tier_timeouts - before.hot_tier_timeouts,
+        cold_timeouts: after.cold_tier_timeouts - before.cold_tier_timeouts,
+        breaker_rejections: after.circuit_breaker_rejections - before.circuit_breaker_rejections,
+        worker_saturation: after.worker_saturation_count - before.worker_saturation_count,
+        partial_results: after.partial_results_returned - before.partial_results_returned,
+        queries_rejected: after.queries_rejected - before.queries_rejected,
+        threads_stalled: stalled,
+    };
+    (res.map_err(|e| format!("{:#}", e)), d)
+}
